@@ -4,10 +4,11 @@
   Loop lemmas are generic in the element reader/writer; the main theorem is by induction on the depth.
 -/
 import Verif.Lemmas.UnknownBase
+import Verif.Lemmas.UnknownEqns
 namespace Verif
 
 /-- what reading one well-formed element delivers: `g` measures it, `rd` reads it, `wr` writes it back -/
-def ElemOK {α : Type} (g : Bytes → Option Nat) (rd : Bytes → UInt16 → UOut (α × Nat)) (wr : α → UOut Bytes)
+def UfElemOK {α : Type} (g : Bytes → Option Nat) (rd : Bytes → UInt16 → UOut (α × Nat)) (wr : α → UOut Bytes)
     (mt : α → UMeta) (p : α → Bool) (t : UInt8) : Prop :=
   ∀ s k i, g s = some k → k ≤ s.length ∧ ∃ f, rd s i = .ok (f, k) ∧ wr f = .ok (s.take k) ∧ p f = true ∧
     (mt f).id = i ∧ (mt f).typ = t
@@ -20,7 +21,7 @@ theorem take_drop_append (b : Bytes) (off a c : Nat) :
   rw [← List.drop_drop, take_take_drop]
 
 theorem readElems_of_refN {α : Type} (g : Bytes → Option Nat) (rd : Bytes → UInt16 → UOut (α × Nat))
-    (wr : α → UOut Bytes) (mt : α → UMeta) (p : α → Bool) (t : UInt8) (H : ElemOK g rd wr mt p t) (b : Bytes) :
+    (wr : α → UOut Bytes) (mt : α → UMeta) (p : α → Bool) (t : UInt8) (H : UfElemOK g rd wr mt p t) (b : Bytes) :
     ∀ n i off k, off ≤ b.length → refN g n (b.drop off) = some k →
       off + k ≤ b.length ∧ ∃ fs, readElems rd n i b off = .ok (fs, off + k) ∧
         writeList wr fs = .ok ((b.drop off).take k) ∧ fs.length = n ∧ elemsOK mt p t i fs = true
@@ -44,7 +45,7 @@ theorem readElems_of_refN {α : Type} (g : Bytes → Option Nat) (rd : Bytes →
         rw [List.drop_drop] at hr
         obtain ⟨hle, fs, hfs, hws, hlen, hok⟩ := readElems_of_refN g rd wr mt p t H b n (i+1) (off + k1) r (by omega) hr
         refine ⟨by omega, f :: fs, ?_, ?_, by simp [hlen], ?_⟩
-        · simp [readElems, sliceFrom_ok b off ho, hrd, hfs]; omega
+        · simp [readElems, ufSliceFrom_ok b off ho, hrd, hfs]; omega
         · simp [writeList, hwr, hws]
           rw [take_drop_append]
         · simp [elemsOK, hid, hty, hp, hok]
@@ -52,13 +53,13 @@ theorem readElems_of_refN {α : Type} (g : Bytes → Option Nat) (rd : Bytes →
 
 theorem readKVs_of_refKV {α : Type} (gk gv : Bytes → Option Nat) (rk rv : Bytes → UInt16 → UOut (α × Nat))
     (wr : α → UOut Bytes) (mt : α → UMeta) (p : α → Bool) (kt vt : UInt8)
-    (HK : ElemOK gk rk wr mt p kt) (HV : ElemOK gv rv wr mt p vt) (b : Bytes) :
+    (HK : UfElemOK gk rk wr mt p kt) (HV : UfElemOK gv rv wr mt p vt) (b : Bytes) :
     ∀ n i off k, off ≤ b.length → refKV gk gv n (b.drop off) = some k →
-      off + k ≤ b.length ∧ ∃ fs, readKVs rk rv n i b off = .ok (fs, off + k) ∧
-        writeKVs wr fs = .ok ((b.drop off).take k) ∧ fs.length / 2 = n ∧ kvsOK mt p kt vt i fs = true
+      off + k ≤ b.length ∧ ∃ fs, ufReadKVs rk rv n i b off = .ok (fs, off + k) ∧
+        writeKVs wr fs = .ok ((b.drop off).take k) ∧ fs.length / 2 = n ∧ ufKvsOK mt p kt vt i fs = true
   | 0, i, off, k, ho, h => by
     simp [refKV] at h; subst h
-    exact ⟨by omega, [], by simp [readKVs], by simp [writeKVs], by simp, by simp [kvsOK]⟩
+    exact ⟨by omega, [], by simp [ufReadKVs], by simp [writeKVs], by simp, by simp [ufKvsOK]⟩
   | n+1, i, off, k, ho, h => by
     simp only [refKV] at h
     generalize hg : gk (b.drop off) = r1 at h
@@ -83,11 +84,11 @@ theorem readKVs_of_refKV {α : Type} (gk gv : Bytes → Option Nat) (rk rv : Byt
           obtain ⟨hle, fs, hfs, hws, hlen, hok⟩ :=
             readKVs_of_refKV gk gv rk rv wr mt p kt vt HK HV b n (i+1) (off + (k1 + v1)) r (by omega) hr
           refine ⟨by omega, f :: f' :: fs, ?_, ?_, by simp; omega, ?_⟩
-          · simp [readKVs, sliceFrom_ok b off ho, hrd, sliceFrom_ok b (off + k1) (by omega), hrd']
+          · simp [ufReadKVs, ufSliceFrom_ok b off ho, hrd, ufSliceFrom_ok b (off + k1) (by omega), hrd']
             rw [show off + k1 + v1 = off + (k1 + v1) by omega, hfs]; simp; omega
           · simp [writeKVs, hwr, hwr', hws]
             rw [← List.append_assoc, take_drop_append, take_drop_append]
-          · simp [kvsOK, hid, hty, hp, hid', hty', hp', hok]
+          · simp [ufKvsOK, hid, hty, hp, hid', hty', hp', hok]
 
 def FieldOK {α : Type} (g : UInt8 → Bytes → Option Nat) (rd : Bytes → UInt8 → UInt16 → UOut (α × Nat))
     (wr : α → UOut Bytes) (mt : α → UMeta) (p : α → Bool) : Prop :=
@@ -119,7 +120,7 @@ theorem readFields_of_refFields {α : Type} (g : UInt8 → Bytes → Option Nat)
       by_cases ht : t = 0
       · simp [ht] at h; subst h; subst ht
         refine ⟨by omega, [], [], ?_, by simp [writeFields], by simp, by simp⟩
-        simp [readFields, sliceFrom_ok b off ho, hs, rdFieldBegin, UT.STOP_eq]
+        simp [readFields, ufSliceFrom_ok b off ho, hs, rdFieldBegin, UT.STOP_eq]
       · simp only [ht, if_false] at h
         by_cases hr2 : rest.length < 2
         · simp [hr2] at h
@@ -144,8 +145,8 @@ theorem readFields_of_refFields {α : Type} (g : UInt8 → Bytes → Option Nat)
                 readFields_of_refFields g rd wr mt p H b fuel fuel2 (off + 3 + k1) r (by omega) (by omega) hrr
               refine ⟨by omega, f :: fs, (mt f).typ :: be16 (mt f).id.toNat ++ (rest.drop 2).take k1 ++ bs, ?_, ?_, ?_,
                 by simp [hp, hall]⟩
-              · simp [readFields, sliceFrom_ok b off ho, hs, rdFieldBegin, UT.STOP_eq, ht, hr2,
-                  sliceFrom_ok b (off + 3) (by omega), e3, hrd, hfs]
+              · simp [readFields, ufSliceFrom_ok b off ho, hs, rdFieldBegin, UT.STOP_eq, ht, hr2,
+                  ufSliceFrom_ok b (off + 3) (by omega), e3, hrd, hfs]
                 omega
               · simp [writeFields, hwr, hws]
               · rw [hid, hty, u16_ofNat_rd16, be16_rd16 rest (by omega), e4] at *
@@ -153,5 +154,255 @@ theorem readFields_of_refFields {α : Type} (g : UInt8 → Bytes → Option Nat)
                 rw [show 3 + k1 + r = (2 + k1 + r) + 1 by omega, List.take_succ_cons]
                 congr 1
                 rw [← List.append_assoc, take_take_drop, take_take_drop]
+
+theorem elemOK_of_fieldOK {α : Type} {g : UInt8 → Bytes → Option Nat} {rd : Bytes → UInt8 → UInt16 → UOut (α × Nat)}
+    {wr : α → UOut Bytes} {mt : α → UMeta} {p : α → Bool} (H : FieldOK g rd wr mt p) (t : UInt8) :
+    UfElemOK (g t) (fun s i => rd s t i) wr mt p t := fun s k i h => H s k t i h
+
+theorem readUF_of_encLen : ∀ m, FieldOK (encLen m) (fun s t id => readUF m s t id) (writeUF m) (ufMeta m) (wt m)
+  | 0 => by intro s k t i h; simp [encLen] at h
+  | m+1 => by
+    have ih := readUF_of_encLen m
+    obtain ⟨u0, u2, u3, u4, u6, u8, u10, u11, u12, u13, u14, u15⟩ := utt
+    intro s k t i h
+    simp only [encLen, layer, TT.BOOL, TT.STRING, TT.STRUCT, TT.LIST, TT.SET, TT.MAP] at h
+    simp only [ufMeta]
+    by_cases h2 : t = 2
+    · subst h2
+      cases s with
+      | nil => simp at h
+      | cons x r =>
+        simp at h
+        obtain ⟨hx, hk⟩ := h; subst hk
+        refine ⟨by simp, (⟨i, 2, 0, 0⟩, .bool (x == 1)), ?_, ?_, ?_, rfl, rfl⟩
+        · refine (readUF_BOOL _ _ _ _ u2.symm).trans ?_; simp [scalarUF, rdBool]; rfl
+        · refine (writeUF_BOOL _ _ u2.symm).trans ?_; rcases hx with hx | hx <;> subst hx <;> simp
+        · refine (wt_BOOL _ _ u2.symm).trans ?_; simp
+    simp only [h2, if_false] at h
+    by_cases h3 : t = 3
+    · subst h3
+      simp [fixedSize] at h
+      obtain ⟨hl, hk⟩ := h; subst hk
+      cases s with
+      | nil => simp at hl
+      | cons x r =>
+        refine ⟨by simp, (⟨i, 3, 0, 0⟩, .i8 x), ?_, ?_, ?_, rfl, rfl⟩
+        · refine (readUF_BYTE _ _ _ _ u3.symm).trans ?_; simp [scalarUF, rdByte]; rfl
+        · refine (writeUF_BYTE _ _ u3.symm).trans ?_; simp
+        · refine (wt_BYTE _ _ u3.symm).trans ?_; simp
+    by_cases h6 : t = 6
+    · subst h6
+      simp [fixedSize] at h
+      obtain ⟨hl, hk⟩ := h; subst hk
+      refine ⟨hl, (⟨i, 6, 0, 0⟩, .i16 (UInt16.ofNat (rd16 s))), ?_, ?_, ?_, rfl, rfl⟩
+      · refine (readUF_I16 _ _ _ _ u6.symm).trans ?_; have hn : ¬ s.length < 2 := by omega
+        simp [scalarUF, rdI16, hn] <;> rfl
+      · refine (writeUF_I16 _ _ u6.symm).trans ?_; simp [Nat.mod_eq_of_lt (rd16_lt s), be16_rd16 s hl]
+      · refine (wt_I16 _ _ u6.symm).trans ?_; simp
+    by_cases h8 : t = 8
+    · subst h8
+      simp [fixedSize] at h
+      obtain ⟨hl, hk⟩ := h; subst hk
+      refine ⟨hl, (⟨i, 8, 0, 0⟩, .i32 (UInt32.ofNat (rd32 s))), ?_, ?_, ?_, rfl, rfl⟩
+      · refine (readUF_I32 _ _ _ _ u8.symm).trans ?_; have hn : ¬ s.length < 4 := by omega
+        simp [scalarUF, rdI32, hn] <;> rfl
+      · refine (writeUF_I32 _ _ u8.symm).trans ?_; simp [Nat.mod_eq_of_lt (rd32_lt s), be32_rd32 s hl]
+      · refine (wt_I32 _ _ u8.symm).trans ?_; simp
+    by_cases h10 : t = 10
+    · subst h10
+      simp [fixedSize] at h
+      obtain ⟨hl, hk⟩ := h; subst hk
+      refine ⟨hl, (⟨i, 10, 0, 0⟩, .i64 (UInt64.ofNat (rd64 s))), ?_, ?_, ?_, rfl, rfl⟩
+      · refine (readUF_I64 _ _ _ _ u10.symm).trans ?_; have hn : ¬ s.length < 8 := by omega
+        simp [scalarUF, rdI64, hn] <;> rfl
+      · refine (writeUF_I64 _ _ u10.symm).trans ?_; simp [Nat.mod_eq_of_lt (rd64_lt s), be64_rd64 s hl]
+      · refine (wt_I64 _ _ u10.symm).trans ?_; simp
+    by_cases h4 : t = 4
+    · subst h4
+      simp [fixedSize] at h
+      obtain ⟨hl, hk⟩ := h; subst hk
+      refine ⟨hl, (⟨i, 4, 0, 0⟩, .f64 (UInt64.ofNat (rd64 s))), ?_, ?_, ?_, rfl, rfl⟩
+      · refine (readUF_DOUBLE _ _ _ _ u4.symm).trans ?_; have hn : ¬ s.length < 8 := by omega
+        simp [scalarUF, rdDouble, hn] <;> rfl
+      · refine (writeUF_DOUBLE _ _ u4.symm).trans ?_; simp [Nat.mod_eq_of_lt (rd64_lt s), be64_rd64 s hl]
+      · refine (wt_DOUBLE _ _ u4.symm).trans ?_; simp
+    have hfx : fixedSize t = 0 := by
+      simp only [fixedSize]; simp [h2, h3, h4, h6, h8, h10]
+    simp only [hfx, Nat.lt_irrefl, if_false] at h
+    by_cases h11 : t = 11
+    · subst h11
+      simp [refStr] at h
+      obtain ⟨⟨hl, hn, hle⟩, hk⟩ := h; subst hk
+      refine ⟨hle, (⟨i, 11, 0, 0⟩, .str ((s.drop 4).take (rd32 s))), ?_, ?_, ?_, rfl, rfl⟩
+      · refine (readUF_STRING _ _ _ _ u11.symm).trans ?_
+        have h1 : ¬ s.length < 4 := by omega
+        have h2 : ¬ 2147483648 ≤ rd32 s := by omega
+        have h3 : ¬ s.length < 4 + rd32 s := by omega
+        simp [scalarUF, rdStr, h1, h2, h3] <;> rfl
+      · refine (writeUF_STRING _ _ u11.symm).trans ?_
+        have hmin : min (rd32 s) (s.length - 4) = rd32 s := by omega
+        simp [u32, hmin, Nat.mod_eq_of_lt (rd32_lt s), be32_rd32 s hl]
+        exact take_take_drop s 4 (rd32 s)
+      · refine (wt_STRING _ _ u11.symm).trans ?_
+        simp; omega
+    simp only [h11, if_false] at h
+    by_cases h12 : t = 12
+    · subst h12
+      simp only [if_true] at h
+      have h' : refFields (encLen m) (s.length + 1) (s.drop 0) = some k := by simpa using h
+      obtain ⟨hle, fs, bs, hrd, hwr, hbs, hall⟩ :=
+        readFields_of_refFields _ _ _ _ _ ih s (s.length + 1) (s.length + 1) 0 k (by omega) (by omega) h'
+      simp at hle hrd hbs
+      refine ⟨hle, (⟨i, 12, 0, 0⟩, .fields fs), ?_, ?_, ?_, rfl, rfl⟩
+      · refine (readUF_STRUCT _ _ _ _ u12.symm).trans ?_
+        simp [hrd] <;> rfl
+      · refine (writeUF_STRUCT _ _ u12.symm).trans ?_
+        simp [hwr, u0, hbs]
+      · refine (wt_STRUCT _ _ u12.symm).trans ?_
+        simpa using hall
+    simp only [h12, if_false] at h
+    by_cases h15 : t = 15
+    · subst h15
+      simp only [true_or, if_true] at h
+      cases s with
+      | nil => simp at h
+      | cons et rest =>
+        by_cases hc : 4 ≤ rest.length ∧ rd32 rest < 2147483648
+        · simp only [hc, and_self, if_true] at h
+          generalize hr : refN (encLen m et) (rd32 rest) (List.drop 4 rest) = rr at h
+          cases rr with
+          | none => simp at h
+          | some r =>
+          simp at h; subst h
+          have e5 : (et :: rest).drop 5 = rest.drop 4 := rfl
+          rw [← e5] at hr
+          obtain ⟨hle, fs, hrd, hwr, hlen, hok⟩ :=
+            readElems_of_refN _ _ _ _ _ _ (elemOK_of_fieldOK ih et) (et :: rest) (rd32 rest) 0 5 r
+              (by simp; omega) hr
+          refine ⟨hle, (⟨i, 15, 0, et⟩, .fields fs), ?_, ?_, ?_, rfl, rfl⟩
+          · refine (readUF_LIST _ _ _ _ u15.symm).trans ?_
+            have h4 : ¬ rest.length < 4 := by omega
+            simp [readListLike, h4, hrd] <;> rfl
+          · refine (writeUF_LIST _ _ u15.symm).trans ?_
+            simp only [hwr, hlen, u32, Nat.mod_eq_of_lt (rd32_lt rest), be32_rd32 rest hc.1, Out.bind_ok, e5]
+            simp only [show 5 + r = (4 + r) + 1 by omega, List.take_succ_cons, List.cons_append]
+            rw [take_take_drop]
+          · refine (wt_LIST _ _ u15.symm).trans ?_
+            have := rd32_lt rest
+            simp [hlen, hok]; omega
+        · simp [hc] at h
+    by_cases h14 : t = 14
+    · subst h14
+      simp only [or_true, if_true] at h
+      cases s with
+      | nil => simp at h
+      | cons et rest =>
+        by_cases hc : 4 ≤ rest.length ∧ rd32 rest < 2147483648
+        · simp only [hc, and_self, if_true] at h
+          generalize hr : refN (encLen m et) (rd32 rest) (List.drop 4 rest) = rr at h
+          cases rr with
+          | none => simp at h
+          | some r =>
+          simp at h; subst h
+          have e5 : (et :: rest).drop 5 = rest.drop 4 := rfl
+          rw [← e5] at hr
+          obtain ⟨hle, fs, hrd, hwr, hlen, hok⟩ :=
+            readElems_of_refN _ _ _ _ _ _ (elemOK_of_fieldOK ih et) (et :: rest) (rd32 rest) 0 5 r
+              (by simp; omega) hr
+          refine ⟨hle, (⟨i, 14, 0, et⟩, .fields fs), ?_, ?_, ?_, rfl, rfl⟩
+          · refine (readUF_SET _ _ _ _ u14.symm).trans ?_
+            have h4 : ¬ rest.length < 4 := by omega
+            simp [readListLike, h4, hrd] <;> rfl
+          · refine (writeUF_SET _ _ u14.symm).trans ?_
+            simp only [hwr, hlen, u32, Nat.mod_eq_of_lt (rd32_lt rest), be32_rd32 rest hc.1, Out.bind_ok, e5]
+            simp only [show 5 + r = (4 + r) + 1 by omega, List.take_succ_cons, List.cons_append]
+            rw [take_take_drop]
+          · refine (wt_SET _ _ u14.symm).trans ?_
+            have := rd32_lt rest
+            simp [hlen, hok]; omega
+        · simp [hc] at h
+    simp only [h15, h14, or_self, if_false] at h
+    by_cases h13 : t = 13
+    · subst h13
+      simp only [if_true] at h
+      match s, h with
+      | [], h => simp at h
+      | [_], h => simp at h
+      | kt :: vt :: rest, h =>
+        by_cases hc : 4 ≤ rest.length ∧ rd32 rest < 2147483648
+        · simp only [hc, and_self, if_true] at h
+          generalize hr : refKV (encLen m kt) (encLen m vt) (rd32 rest) (List.drop 4 rest) = rr at h
+          cases rr with
+          | none => simp at h
+          | some r =>
+          simp at h; subst h
+          have e6 : (kt :: vt :: rest).drop 6 = rest.drop 4 := rfl
+          rw [← e6] at hr
+          obtain ⟨hle, fs, hrd, hwr, hlen, hok⟩ :=
+            readKVs_of_refKV _ _ _ _ _ _ _ _ _ (elemOK_of_fieldOK ih kt) (elemOK_of_fieldOK ih vt)
+              (kt :: vt :: rest) (rd32 rest) 0 6 r (by simp; omega) hr
+          refine ⟨hle, (⟨i, 13, kt, vt⟩, .fields fs), ?_, ?_, ?_, rfl, rfl⟩
+          · refine (readUF_MAP _ _ _ _ u13.symm).trans ?_
+            have h4 : ¬ rest.length < 4 := by omega
+            simp [readMapLike, h4, hrd] <;> rfl
+          · refine (writeUF_MAP _ _ u13.symm).trans ?_
+            simp only [hwr, hlen, u32, Nat.mod_eq_of_lt (rd32_lt rest), be32_rd32 rest hc.1, Out.bind_ok, e6]
+            simp only [show 6 + r = (4 + r) + 1 + 1 by omega, List.take_succ_cons, List.cons_append]
+            rw [take_take_drop]
+          · refine (wt_MAP _ _ u13.symm).trans ?_
+            have := rd32_lt rest
+            simp [hlen, hok]; omega
+        · simp [hc] at h
+    simp [h13] at h
+
+
+theorem convertLoop_of_encSeq {α : Type} (g : UInt8 → Bytes → Option Nat)
+    (rd : Bytes → UInt8 → UInt16 → UOut (α × Nat)) (wr : α → UOut Bytes) (mt : α → UMeta) (p : α → Bool)
+    (H : FieldOK g rd wr mt p) (b : Bytes) :
+    ∀ fuel fuel2 off, off ≤ b.length → b.length - off + 1 ≤ fuel2 → encSeq g fuel (b.drop off) = true →
+      ∃ fs, convertLoop rd fuel2 b off = .ok fs ∧ writeFields mt wr fs = .ok (b.drop off) ∧ fs.all p = true ∧
+        (off < b.length → fs ≠ [])
+  | 0, _, _, _, _, h => by simp [encSeq] at h
+  | fuel+1, 0, _, _, hf, _ => by omega
+  | fuel+1, fuel2+1, off, ho, hf, h => by
+    simp only [encSeq] at h
+    generalize hs : b.drop off = s at h
+    cases s with
+    | nil =>
+      have : off = b.length := by
+        have := congrArg List.length hs; simp at this; omega
+      exact ⟨[], by simp [convertLoop, this], by simp [writeFields], by simp, by omega⟩
+    | cons t rest =>
+      have hlen : rest.length + 1 = b.length - off := by
+        have := congrArg List.length hs; simp at this; omega
+      simp only at h
+      by_cases ht : t = 0
+      · simp [ht] at h
+      · simp only [ht, if_false] at h
+        by_cases hr2 : rest.length < 2
+        · simp [hr2] at h
+        · simp only [hr2, if_false] at h
+          generalize hg : g t (rest.drop 2) = r1 at h
+          cases r1 with
+          | none => simp at h
+          | some k1 =>
+            simp only at h
+            obtain ⟨hk1, f, hrd, hwr, hp, hid, hty⟩ := H _ _ t (UInt16.ofNat (rd16 rest)) hg
+            simp at hk1
+            have e3 : b.drop (off + 3) = rest.drop 2 := drop_of_cons hs 2
+            have e4 : b.drop (off + 3 + k1) = rest.drop (2 + k1) := by
+              rw [show off + 3 + k1 = off + ((2 + k1) + 1) by omega]; exact drop_of_cons hs (2 + k1)
+            rw [← e4] at h
+            obtain ⟨fs, hfs, hws, hall, _⟩ :=
+              convertLoop_of_encSeq g rd wr mt p H b fuel fuel2 (off + 3 + k1) (by omega) (by omega) h
+            refine ⟨f :: fs, ?_, ?_, by simp [hp, hall], by simp⟩
+            · have hne : off ≠ b.length := by omega
+              simp [convertLoop, hne, ufSliceFrom_ok b off ho, hs, rdFieldBegin, UT.STOP_eq, ht, hr2,
+                ufSliceFrom_ok b (off + 3) (by omega), e3, hrd, hfs]
+            · simp only [writeFields, hwr, hws, Out.bind_ok]
+              rw [hid, hty, u16_ofNat_rd16, be16_rd16 rest (by omega), e4]
+              simp only [List.cons_append, List.append_assoc]
+              congr 2
+              rw [← List.append_assoc, take_take_drop, List.take_append_drop]
 
 end Verif
